@@ -150,6 +150,7 @@ def main(argv):
     if tier not in ("quick", "thorough"):
         print("tier must be quick or thorough")
         return 2
+    os.environ["VERIF_TIER"] = tier   # inherited by the forked workers (C07 plans a longer ladder when thorough)
     base = int(os.environ.get("VERIF_SEED", "0"))
     jobs = int(os.environ.get("VERIF_JOBS", "16"))
     prop = runner.load_prop(pid)
